@@ -557,6 +557,21 @@ def vi_dict(ctx: Ctx):
     ctx.check(ok if ok else None, "DICT-5", w, w.node, f"{who}: converged from the sweep counter", "", "idiom not recognised")
 
 
+def converged_rules(ctx: Ctx):
+    from .common import converged_from_counter
+    P = ctx.P
+    for cls, meth in (("ValueIteration", "_vectorized_plan_on"), ("ValueIteration", "_dict_plan_on"), ("PolicyIteration", "batch_plan_on")):
+        f = P.method(cls, meth)
+        kws = [k for n in ast.walk(f.node) if isinstance(n, ast.Call) for k in n.keywords if k.arg == "converged"]
+        if not kws:
+            ctx.violation("BEL-5", f, f.node, f"{cls}.{meth}: converged reported", "the result carries no converged flag")
+            continue
+        ok = converged_from_counter(kws[0].value, "iterations", "self.max_iterations")
+        ctx.check(ok, "BEL-5", f, kws[0].value, f"{cls}.{meth}: converged <=> iterations < max_iterations - 1", ast.unparse(kws[0].value),
+                  f"converged is `{ast.unparse(kws[0].value)}`; `iterations` is the 0-based index of the last pass, so convergence within the cap is "
+                  f"`iterations < max_iterations - 1` (this form is true even when the budget was exhausted, or is not derived from the counter)")
+
+
 def dispatch(ctx: Ctx):
     P = ctx.P
     f = P.method("ValueIteration", "plan_on")
@@ -572,6 +587,7 @@ def run(ctx: Ctx):
     vi_vectorised(ctx, typer, seen)
     pi_batched(ctx, typer, seen)
     vi_dict(ctx)
+    converged_rules(ctx)
     dispatch(ctx)
     fns = [f for f in ctx.P.all_functions() if f.module.name in ("msdm.algorithms.valueiteration", "msdm.algorithms.policyiteration")]
     arg_permutation_rule(ctx, G, fns, "ARG")
